@@ -129,6 +129,8 @@ class Interp:
                 v = self.label(v, f'{m2.name}.{name}')
         elif r[0] in ('ext', 'mod'):
             v = Sym(str(r[1] if r[0] == 'ext' else r[1].name))
+            if r[0] == 'mod':
+                v.module = r[1]
         else:
             raise Unknown(f'name {name}')
         self.globals[k] = v
@@ -400,6 +402,8 @@ class Interp:
                 v = self.class_value(o.cls, e.attr)
                 if v is not None:
                     return v
+            if isinstance(o, Sym) and getattr(o, 'module', None) is not None:
+                return self.module_value(o.module, e.attr)
             if isinstance(o, Sym) and e.attr in o.attrs:
                 return o.attrs[e.attr]
             if isinstance(o, Sym) and o.name in ('numpy', 'np') or isinstance(o, Sym) and o.name.startswith('numpy.'):
@@ -561,6 +565,18 @@ class Interp:
                 m = self.prog.resolve_method(o.cls, fn.attr)
                 if m is not None:
                     return self.call(m, args, kwargs, selfobj=o, depth=depth + 1)
+            if isinstance(o, Sym) and getattr(o, 'module', None) is not None:
+                v = self.module_value(o.module, fn.attr)
+                if isinstance(v, Sym) and getattr(v, 'func', None) is not None:
+                    if v.func.key in getattr(self, 'opaque_funcs', ()):
+                        return derived_call(v.func.name, args, kwargs)
+                    return self.call(v.func, args, kwargs, depth=depth + 1)
+                if isinstance(v, EnumClass) and len(args) == 1:
+                    for mem in v.members.values():
+                        if int(mem) == int(args[0]):
+                            return mem
+                    raise Raised('ValueError', e)
+                raise Unknown(f'call of `{norm(fn)[:40]}`')
             if isinstance(o, Sym):
                 return derived_call(f'{o.name}.{fn.attr}', args, kwargs)
             raise Unknown(f'method call `{norm(fn)[:40]}`')
